@@ -40,6 +40,21 @@ CLAIMS = {
               "snapshots it after every cycle - and TLC validates both against the plan for every opcode with pointers steered into every memory region."),
         design="5/C03", technique="TLA+ access plan + TLC trace validation of bus logs and of per-cycle memory perturbation/snapshot schedules",
         note="Operand (instruction-stream) fetch timing is not constrained; data addresses coinciding with the instruction's own bytes are excluded."),
+    "C04": dict(
+        category="model_checking",
+        text=("IntCtl.tla defines the interrupt-control state (IME, EI delay, halted, halt bug, IE, IF) and, per instruction boundary, which unit must happen (dispatch / instruction / idle / wake). "
+              "TLC explores the closed model (any program of control instructions, requests raised at any time) and checks the property's clauses as invariants/action properties. "
+              "The real CPU is run on all IME x IE x IF combinations and on every short program over the property's alphabet with requests raised by the harness before every machine-cycle offset; "
+              "every unit is validated by TLC: the spec, not the harness, decides whether a dispatch had to happen, which vector, which IF bit, how many cycles, what was pushed."),
+        design="5/C04", technique="TLA+ control-state spec + TLC exhaustive MC of the closed model; TLC trace validation of recorded boundary-to-boundary units",
+        note="Requests are raised through the interrupts package API between cycles; observed IME is not compared (only dispatch behaviour is); listed 'free' corners are accepted either way."),
+    "C05": dict(
+        category="model_checking",
+        text=("Same specification as C04 (IntCtl.tla): HALT, idle units, wake-up by dispatch (6 cycles) or without IME, and the halt bug (opcode fetch without PC increment, so the byte after HALT is read twice, "
+              "checked through SM83!Exec on the doubled bytes). TLC checks the clauses and a liveness property on the closed model; the real CPU is run on HALT x IME x all IE x IF, HALT followed by every defined "
+              "opcode in the three pending situations, and all short programs containing HALT, with idle cycles as events of their own."),
+        design="5/C05", technique="TLA+ control-state spec + TLC MC (safety, liveness under weak fairness); TLC trace validation of recorded units incl. idle cycles",
+        note="Wake-up latency with IME clear is accepted in 0..2 cycles; halt bug followed by CB/HALT and EI directly followed by HALT are not judged."),
     "C12": dict(
         category="model_checking",
         text=("Timer.tla (16-bit counter, edge detector, relative overflow/zero/reload pipeline, interrupt bookkeeping) is model-checked by TLC over all operation "
